@@ -370,10 +370,11 @@ class Header(Field):
                 elen = ((nl & 0xFF00) + (192 << 8)) + ((nl & 0xFF) - 192)
                 return Header.int_to_bytes(elen, 2)
 
-            return b'\xFF' + Header.int_to_bytes(nl, 4)
+            # a body of 2**32 octets or more has no definite length encoding: refuse it rather than misframe it
+            return b'\xFF' + Header.int_to_fixed(nl, 4)
 
         def _old_length(nl, llen):
-            return Header.int_to_bytes(nl, llen) if llen > 0 else b''
+            return Header.int_to_fixed(nl, llen) if llen > 0 else b''
 
         return _new_length(length) if nhf else _old_length(length, llen)
 
